@@ -116,6 +116,18 @@ func VerifC10WriteConvPipe() {
 	defer verifReset(in, out)
 	symbol := []string{"m7", "", "sus4", "MinorTriad", "dim7"}[vf.NondetIntRange("symbol", 0, 4)]
 	base := []string{"3", "", "#1", "bb1", "b7", "#11", "1", "8"}[vf.NondetIntRange("base", 0, 7)]
+	// a user dictionary may be in force on both sides of the pipe: one that gives the display
+	// symbol of a built-in chord to a chord of its own, while the piece names the built-in chord
+	// by its long name — the chord meant is the one named, whatever `write conv` prints for it
+	var dictFlags []string
+	if vf.NondetIntRange("user-dictionary", 0, 1) == 1 {
+		dict := vf.TempPath("pipe-dict.yml")
+		os.Remove(dict)
+		defer os.Remove(dict)
+		os.WriteFile(dict, []byte("- name: ShellSeventh\n  meta:\n    display: \"7\"\n  attributes:\n    - Perfect1\n    - Major3\n    - Minor7\n"), 0o644)
+		dictFlags = []string{"--chord", dict}
+		symbol = "DominantSeventh"
+	}
 	// the lyric text: plain, or one of the texts YAML printers and readers are known to
 	// stumble over (these go through the real library, concretely)
 	lyrics := []string{"la", " lead", "trail ", "a: b", "#x", "- y", "~", "null", "two\nlines\n", "\n x", "\ttab", "it's \"q\"", "é\u3000", "end\n\n", "fine\u00a0", "\tla\nla", "\u2028la\nla", " la\nla", "la\n la\n"}
@@ -130,11 +142,15 @@ func VerifC10WriteConvPipe() {
 		n = 4
 	}
 	os.WriteFile(in, []byte(doc), 0o644)
-	vf.Assert("flags-parse", writeCmdConv.ParseFlags([]string{"--output", out, "--command", "cmt"}) == nil)
+	vf.Assert("flags-parse", writeCmdConv.ParseFlags(append([]string{"--output", out, "--command", "cmt"}, dictFlags...)) == nil)
 	vf.Assert("conv-succeeds", writeCmdConv.RunE(writeCmdConv, []string{in}) == nil)
-	vf.Assert("flags-parse", writeCmdParse.ParseFlags(nil) == nil)
+	vf.Assert("flags-parse", writeCmdParse.ParseFlags(dictFlags) == nil)
 	orig, err1 := newWriteCmdArgs(writeCmdParse, []string{in})
 	again, err2 := newWriteCmdArgs(writeCmdParse, []string{out})
+	if dictFlags != nil {
+		writeCmdParse.ParseFlags([]string{"--chord", ""})
+		vf.Assert("named-chord-is-the-built-in-one", err1 != nil || (orig.instances[0].Chord != nil && orig.instances[0].Chord.Chord.Name == "DominantSeventh"))
+	}
 	vf.Assert("original-is-accepted-by-write", err1 == nil && orig != nil)
 	vf.Assert("conv-output-is-accepted-by-write", err2 == nil && again != nil)
 	if err1 != nil || err2 != nil {
@@ -1175,6 +1191,44 @@ func VerifC16AttrFiles() {
 	if chordC == 2 {
 		vf.Assert("unrelated-user-chord-known", same(semis("five"), []int{0, 7}))
 	}
+	vf.Reach("end")
+}
+
+// VerifC16BrokenDictWrite: `write` refuses an inconsistent dictionary whatever the piece holds
+// (chords using built-in symbols only, rests only, an empty list) — the rejection belongs to the
+// dictionary, not to the chords that happen to need it. Five kinds of inconsistency, stated
+// outright; nothing may be reported as success.
+func VerifC16BrokenDictWrite() {
+	in, out, dict := vf.TempPath("brokendict-in.yml"), vf.TempPath("brokendict-out.mid"), vf.TempPath("brokendict.yml")
+	verifReset(in, out, dict)
+	defer verifReset(in, out, dict)
+	kind := vf.NondetIntRange("inconsistency", 0, 4)
+	flag := "--chord"
+	switch kind {
+	case 0:
+		os.WriteFile(dict, []byte("- name: Broken\n  meta:\n    display: brk\n  attributes:\n    - NoSuchAttribute\n"), 0o644)
+	case 1:
+		os.WriteFile(dict, []byte("- name: Broken\n  meta:\n    display: brk\n  extends: NoSuchChord\n"), 0o644)
+	case 2:
+		os.WriteFile(dict, []byte("- name: A\n  meta:\n    display: a1\n  extends: B\n- name: B\n  meta:\n    display: b1\n  extends: A\n"), 0o644)
+	case 3:
+		os.WriteFile(dict, []byte("- meta:\n    display: anon\n  attributes:\n    - Perfect1\n"), 0o644)
+	case 4:
+		flag = "--attr"
+		os.WriteFile(dict, []byte("- degree: \"3\"\n"), 0o644)
+	}
+	switch vf.NondetIntRange("piece", 0, 2) {
+	case 0:
+		os.WriteFile(in, []byte(verifDoc("m7")), 0o644)
+	case 1:
+		os.WriteFile(in, []byte("- values:\n    - \"1\"\n- values:\n    - \"1/2\"\n  bpm: 90\n"), 0o644)
+	case 2:
+		os.WriteFile(in, []byte("[]\n"), 0o644)
+	}
+	vf.Assert("flags-parse", writeCmd.ParseFlags([]string{"--output", out, flag, dict}) == nil)
+	_, err := verifCapture("brokendict-stdout.bin", func() error { return writeCmd.RunE(writeCmd, []string{in}) })
+	writeCmd.ParseFlags([]string{"--output", "", "--attr", "", "--chord", ""})
+	vf.Assert("inconsistent-dictionary-refused-whatever-the-piece", err != nil)
 	vf.Reach("end")
 }
 
